@@ -366,10 +366,14 @@ func TestVerifMarkup(t *testing.T) {
 			}
 			sel := []string{}
 			for k := -1; k <= n+2; k++ {
-				link, _, present := post.SelectLink(k)
-				if !present {
-					link = "none"
-				}
+				link := "panic"
+				verifkit.Try(func() {
+					target, _, present := post.SelectLink(k)
+					link = target
+					if !present {
+						link = "none"
+					}
+				})
 				sel = append(sel, link)
 			}
 			for _, w := range []int{80, 44, 30} {
